@@ -281,10 +281,95 @@ def oracle(p):
                 report(f"C07:{vname}.inverse:{kind}:raises", f"{type(e).__name__}: {str(e)[:120]}", case)
             finally:
                 torch.set_default_dtype(torch.float64)
+    velocity_direct_checks(rng, max(24, n // 5), report, counts)
     best = {}
     for f in fails:
         best.setdefault(f["key"], f)
     return {"fails": list(best.values()), "counts": counts}
+
+
+def velocity_direct_checks(rng, n, report, counts):
+    """inverse of a velocity-field model used WITHOUT the forward pre-hook: after the transform has been evaluated
+    (v buffered), inverse(update_buffers=True) / .inv must hand back buffers of the INVERSE map, so forward / tensor /
+    disp / flow of the inverse (or of an inverted composite containing it) are usable at once; with
+    update_buffers=False the documented explicit update() comes first."""
+    counts["velocity_direct"] = 0
+    torch.set_default_dtype(torch.float32)
+    try:
+        for it in range(n):
+            vname = rng.choice(["StationaryVelocityFieldTransform", "StationaryVelocityFreeFormDeformation"])
+            g = Grid(size=(17, 15), align_corners=True)
+            kind = rng.choice(["Parameter", "tensor", "callable"])
+            upd = rng.random() < 0.7
+            mode = rng.choice(["inverse", "inverse", "inv", "composite"])
+            link = rng.random() < 0.5 and kind != "Parameter"
+            if mode == "inv" and kind == "Parameter":
+                mode = "inverse"
+            access = rng.choice(["forward", "tensor", "disp", "flow", "call"])
+            case = {"cls": vname, "kind": kind, "link": link, "update_buffers": upd, "mode": mode, "access": access}
+            try:
+                if vname == "StationaryVelocityFieldTransform":
+                    shape, kw = tuple(g.shape), {}
+                else:
+                    kw = {"stride": 4}
+                    shape = tuple(S.StationaryVelocityFreeFormDeformation(g, params=None, **kw).data_shape[1:])
+                v = smooth_field(random.Random(5000 + it), 2, shape, 0.12).float()
+                cls = getattr(S, vname)
+                store = {"v": v}
+                params = Parameter(v.clone()) if kind == "Parameter" else (v.clone() if kind == "tensor" else (lambda *a, **k: store["v"]))
+                t = cls(g, params=params, **kw)
+                x = (torch.rand((1, 40, 2), generator=torch.Generator().manual_seed(it)) * 1.0 - 0.5).float()
+                with torch.no_grad():
+                    # the transform has been used before: v and u are buffered
+                    y = t(x) if rng.random() < 0.5 else (t.update(), t.forward(x))[1]
+                    lin = None
+                    if mode == "composite":
+                        lin = S.Translation(g, params=torch.tensor([[0.05, -0.03]]))
+                        comp = S.SequentialTransform(lin, t)
+                        y = comp.forward(x)
+                        inv = comp.inverse(link=link, update_buffers=upd)
+                        svf_inv = list(inv.transforms())[0]
+                    else:
+                        inv = t.inv if mode == "inv" else t.inverse(link=link, update_buffers=upd)
+                        svf_inv = inv
+                    if mode == "inv":
+                        case["update_buffers"] = True
+                    elif not upd:
+                        inv.update()         # documented: required before use when update_buffers=False
+                    # reference: a freshly built transform with the negated exponential
+                    tw = cls(g, params=v.clone(), **kw)
+                    tw.exp.scale = -float(t.exp.scale)
+                    tw.exp.steps = int(t.exp.steps)
+                    tw.update()
+                    if access == "tensor":
+                        got, want = svf_inv.tensor(), tw.tensor()
+                    elif access == "disp":
+                        got, want = svf_inv.disp(), tw.disp()
+                    elif access == "flow":
+                        got, want = svf_inv.flow().tensor(), tw.flow().tensor()
+                    elif access == "forward":
+                        got, want = inv.forward(y), (tw.forward(y) if lin is None else lin.inverse().forward(tw.forward(y)))
+                    else:
+                        got, want = inv(y), (tw(y) if lin is None else lin.inverse()(tw(y)))
+                    back = inv.forward(y) if access != "call" else got
+                counts["velocity_direct"] += 1
+                d = maxerr(got, want)
+                e = maxerr(back, x) * (min(g.shape) - 1) / 2
+                case["difference_from_fresh_inverse"] = d
+                case["round_trip_error_in_samples"] = e
+                if d > 1e-5 or e > 0.1:
+                    ub = "update_buffers" if case["update_buffers"] else "after-update"
+                    report(f"C07:{vname}.inverse:{ub}:{access}:not-the-inverse-field",
+                           f"{access} of the inverse obtained by {mode}(update_buffers={case['update_buffers']}) without the pre-hook differs from the "
+                           f"inverse field by {d:.3g}; inverse(forward(x)) is off by {e:.3g} samples", case)
+            except Exception as e:  # noqa
+                counts["raised"] += 1
+                if isinstance(e, TypeError) and kind == "Parameter" and link:
+                    report("C07:ParametricTransform.link_:Parameter:TypeError", f"inverse(link=True) raises {type(e).__name__}: {str(e)[:120]}", case)
+                else:
+                    report(f"C07:{vname}.inverse:{access}:direct-access-raises", f"{type(e).__name__}: {str(e)[:120]}", case)
+    finally:
+        torch.set_default_dtype(torch.float64)
 
 
 def main():
